@@ -63,7 +63,11 @@ def main():
     for sid in ids:
         if only and sid not in only:
             continue
-        props = ["C01", "C02", "C03", "C04", "C05", "C13", "C20"] if a.all_props else None
+        props = None
+        if a.all_props:
+            # the checks that drive the code the seed touches (same world)
+            own = json.load(open(os.path.join(VERIF, "seeded", sid, "meta.json")))["property"]
+            props = next(g for g in (["C01", "C02", "C03"], ["C04", "C05"], ["C13"], ["C20"]) if own in g)
         for sid_, prop, verdict, dt in run_one(sid, a.tier, a.runs, props):
             print("%-28s %s %6.1fs %s" % (sid_, prop, dt, verdict), flush=True)
             if not a.all_props and not verdict.startswith("CAUGHT"):
